@@ -94,7 +94,7 @@ def _gen_seeded():
             mp = os.path.join(sd, d, "meta.json")
             if os.path.exists(mp):
                 mt = json.load(open(mp))
-                rows.append("| `%s` | %s | %s | %s | %s |" % (d, mt.get("property"), mt.get("change", "").replace("|", "/"), mt.get("needs", "").replace("|", "/"), mt.get("verdict", "").replace("|", "/")))
+                rows.append("| `%s` | %s | %s | %s | %s |" % (d, mt.get("property"), mt.get("change", "").replace("|", "/"), mt.get("needs", "").replace("|", "/"), (mt.get("verdict", "")[:260] + ((" — " + mt["history"]) if mt.get("history") else "")).replace("|", "/")))
     head = "| seeded/ | property | change | needs, to manifest | `./check` on the changed tree |\n|---|---|---|---|---|\n"
     return head + "\n".join(rows) + "\n"
 
